@@ -272,6 +272,11 @@ def build(spec):
             doc = collada.Collada(io.BytesIO(ET.tostring(root)))
         else:
             inject(doc.xmlnode.getroot(), spec.get('ext', []))
+    if doc.xmlnode.getroot().find(T('asset')) is None or spec.get('fix_dates'):
+        # a document without <asset> gets Asset() with the current time: pin it, or two builds of
+        # the same specification would differ by their timestamps
+        doc.assetInfo.created = FIXED_CREATED
+        doc.assetInfo.modified = FIXED_MODIFIED
     apply_edits(doc, spec.get('edits', []))
     return doc
 
@@ -521,7 +526,15 @@ def run_doc(spec, tmpdir):
     ob.register_doc(doc)
     before_unm = ob.unmanaged(doc.xmlnode.getroot())
     before_canon = [chash(c) for c in before_unm]
-    ubefore = [[ob.uid(c), enc.element(c)] for c in before_unm]
+    def noblank(e):
+        # blank text (which indent() may rewrite) reads as no text on both sides
+        import copy
+        e = copy.deepcopy(e)
+        for x in e.iter():
+            if blank(x.text):
+                x.text = None
+        return e
+    ubefore = [[ob.uid(c), enc.element(noblank(c))] for c in before_unm]
     out_root = ET.fromstring(B)
     after_canon = [chash(c) for c in ob.unmanaged(out_root)]
     if before_canon != after_canon:
@@ -530,6 +543,14 @@ def run_doc(spec, tmpdir):
                 next((i for i, (a, b) in enumerate(zip(before_canon, after_canon)) if a != b), 'length')))
     import xml.dom.minidom
     dom = xml.dom.minidom.parseString(B)
+
+    def dropblank(n):
+        for c in list(n.childNodes):
+            if c.nodeType in (c.TEXT_NODE, c.CDATA_SECTION_NODE) and not c.data.strip():
+                n.removeChild(c)
+            elif c.nodeType == c.ELEMENT_NODE:
+                dropblank(c)
+    dropblank(dom.documentElement)
     uafter = []
     for c in dom.documentElement.childNodes:
         if c.nodeType == c.ELEMENT_NODE and not (c.namespaceURI == NS and (c.localName in MANAGED or c.localName in ('scene', 'asset'))):
@@ -543,7 +564,13 @@ def run_doc(spec, tmpdir):
         for k, o in enumerate(getattr(doc, a)):
             arr.append([li * 1000 + k + 1, I.atom(o.id if o.id is not None else ''), ob.uid(o.xmlnode), ob.hatom(emitted[li][k])])
         arrs.append(arr)
-    msc = None if doc.scene is None else I.atom(doc.scene.id)
+    msc = None
+    if doc.scene is not None:
+        su = 999999
+        for k, o in enumerate(doc.scenes):
+            if o is doc.scene:
+                su = arrs[8][k][0]
+        msc = [su, I.atom(doc.scene.id)]
     tree0 = ob.skeleton(doc)
     # the asset child: content atom of the whole subtree (skeleton() already gives that)
     masset = ob.hatom(asset_hash)
@@ -615,7 +642,7 @@ def run_doc(spec, tmpdir):
             u()
         if code != 0:
             nfail += 1
-        cf = [[[arrs[3][k][0], 3] for k in bad], sc]
+        cf = [[[arrs[3][k][0], 3] for k in bad], None if sc is None else [999998, I.atom(sc)]]
         below = None
         if sink is not None:
             below = (dest[1] is not None and dest[1] < len(B))
